@@ -132,6 +132,30 @@ def _serial_executor() -> None:
         STUBS.append("parallel.coordinator / parallel.simulation ThreadPoolExecutor -> serial executor (thread interleavings outside the claim)")
 
 
+def _keep_repo_caches() -> None:
+    """CrossHair bypasses every functools.lru_cache while tracing (calls __wrapped__ directly), which makes
+    process-wide memoisation inside the code under test invisible.  Keep the bypass for everything except
+    functions defined in happysimulator modules, whose caches are part of the behaviour being checked."""
+    from functools import _lru_cache_wrapper
+
+    from crosshair import core
+    from crosshair.tracers import NoTracing
+
+    orig = core._PATCH_REGISTRATIONS.get(_lru_cache_wrapper.__call__)
+    if orig is None:
+        return
+
+    def call(self, *a, **kw):
+        mod = getattr(getattr(self, "__wrapped__", None), "__module__", "") or ""
+        if mod.startswith("happysimulator"):
+            with NoTracing():
+                return _lru_cache_wrapper.__call__(self, *a, **kw)
+        return orig(self, *a, **kw)
+
+    core._PATCH_REGISTRATIONS[_lru_cache_wrapper.__call__] = call
+    STUBS.append("crosshair lru_cache bypass kept except for functions defined in happysimulator modules (their caches stay live; called untraced)")
+
+
 def install() -> None:
     global _installed
     if _installed:
@@ -142,6 +166,7 @@ def install() -> None:
 
     _make_registrations()
     _fix_isinstance()
+    _keep_repo_caches()
     _real_floats_only()
     _count_solver()
     _quiet_logging()
